@@ -79,7 +79,11 @@ func (g *Gen) doCall(cc *ssa.CallCommon, pos token.Pos, name string) []string {
 			if cl.Kind != "assert" {
 				continue
 			}
-			if cl.Call != label && cl.Call != fmtf("%s#%d", label, n) {
+			if cl.Call == "*" {
+				if containsStr(cl.Except, label) || containsStr(cl.Except, fmtf("%s#%d", label, n)) {
+					continue
+				}
+			} else if cl.Call != label && cl.Call != fmtf("%s#%d", label, n) {
 				continue
 			}
 			k++
@@ -89,8 +93,13 @@ func (g *Gen) doCall(cc *ssa.CallCommon, pos token.Pos, name string) []string {
 			}
 			t, err := env.evalBool(cl.E)
 			if err != nil {
-				g.errorf("%s: at call %s: %v", g.fnLabel(), label, err)
-				continue
+				if cl.Call == "*" && strings.Contains(err.Error(), "unknown name") {
+					// a gate variable that does not exist (yet) at this call: the gate was not passed
+					t = "false"
+				} else {
+					g.errorf("%s: at call %s: %v", g.fnLabel(), label, err)
+					continue
+				}
 			}
 			g.oblige("assert", fmtf("%s/assert@%s#%d.%d", g.fnLabel(), label, n, k), t, cl.Props, cl.Text, pos)
 			g.assume(t)
@@ -243,7 +252,7 @@ func (g *Gen) applyContract(fc *FuncContract, names []string, args []TV, cc *ssa
 		envPost.results = []TV{}
 	}
 	for _, cl := range fc.Clauses {
-		if cl.Kind != "ensures" || strings.HasPrefix(cl.Label, "local") {
+		if (cl.Kind != "ensures" && cl.Kind != "establishes") || strings.HasPrefix(cl.Label, "local") {
 			continue
 		}
 		t, err := envPost.evalBool(cl.E)
